@@ -33,6 +33,7 @@ package parser
 
 //@ func (*parser).back
 //@   requires recv: p != nil
+//@   requires has-token: p.tkpos >= 1
 //@   ensures def: p.tkpos == old(p.tkpos) - 1 && frame(p.tkpos)
 
 //@ pure func atomStart(t string) bool = t == lexer.TTArg || t == lexer.TTOptions || t == lexer.TTShortOpt || t == lexer.TTLongOpt ||
